@@ -24,9 +24,10 @@ theorem text_control_noop (g : Grid) (a : Attrs) (c : Nat) (hw : W c = none) (hc
     g.text W a c = .ok g := by
   simp [Grid.text, hw, hc]
 
-theorem text_too_wide_dropped (g : Grid) (a : Attrs) (c w : Nat) (hw : W c = some w) (h : g.size.cols < w) :
+theorem text_too_wide_dropped (g : Grid) (a : Attrs) (c w : Nat) (hw : W c = some w) (h : g.size.cols < min w 2) :
     g.text W a c = .ok g := by
-  simp [Grid.text, hw, h]
+  simp only [Grid.text, hw, Option.isNone_some, Bool.false_and, Bool.false_eq_true, ↓reduceIte, Option.getD_some]
+  rw [if_pos h]; rfl
 
 /-- `Cell::set(c, a)`: UTF-8 bytes of `c` at the start, length = their number, wide iff width 2,
 not a continuation, attributes = the pen -/
@@ -57,7 +58,7 @@ theorem text_narrow_fits (g : Grid) (a : Attrs) (c : Nat) (row : Row) (cell : Ce
   have hlim : ¬ g.pos.col > g.size.cols - 1 := by omega
   have h1' : ((W c).isNone && decide (c < 256)) = false := by
     cases hn : (W c).isNone <;> simp_all
-  simp only [Grid.text, h1', Bool.false_eq_true, ↓reduceIte, hw, show ¬ (1 > g.size.cols) by omega,
+  simp only [Grid.text, h1', Bool.false_eq_true, ↓reduceIte, hw, show min 1 2 = 1 by rfl, show ¬ (1 > g.size.cols) by omega,
     Grid.wrapDecision, subM_ok hc1, ok_bind, hlim, pure_bind', pure_eq_ok, Grid.colWrap]
   simp only [show (1 == 0) = false by rfl, Bool.false_eq_true, ↓reduceIte, Grid.textWide, Grid.modifyCurrentRow,
     modifyM, hrow, Grid.textWideRow, getM, hcell, ok_bind, pure_bind', Cell.isWideContinuation, hcc, Cell.isWide,
